@@ -20,3 +20,20 @@ pub fn main(a: &Args) {
         println!("LINT {}..{} {:?} {:?} {:?} {:?}", l.span.start, l.span.end, l.lint_kind, s, l.message, l.suggestions);
     }
 }
+
+/// which rule, enabled alone, produces which lints on a text
+pub fn alone(a: &Args) {
+    use harper_core::linting::{LintGroup, Linter};
+    let text = a.req("text").replace("\\n", "\n");
+    let dict = harper_core::FstDictionary::curated();
+    let doc = harper_core::Document::new(&text, &harper_core::parsers::PlainEnglish, &dict);
+    let mut lg = LintGroup::new_curated(dict.clone(), Dialect::American);
+    let names: Vec<String> = lg.iter_keys().map(|s| s.to_string()).collect();
+    for n in &names {
+        lg.set_all_rules_to(Some(false));
+        lg.config.set_rule_enabled(n, true);
+        let l = lg.lint(&doc);
+        if !l.is_empty() { println!("{n}: {:?}", l.iter().map(|x| (x.span.start, x.span.end, x.message.clone())).collect::<Vec<_>>()); }
+    }
+    println!("names: {} distinct: {}", names.len(), names.iter().collect::<std::collections::BTreeSet<_>>().len());
+}
